@@ -54,6 +54,14 @@ Theorem C06_removed_by_kind :
                      exists h q, stat f p = SFile h /\ nfhash n = Some h /\ fs_get f q = Some (FFile h)))).
 Proof. exact removed_file_kinds. Qed.
 
+(* What a removed symbolic link pointed to -- like any other path -- still holds exactly what it held, unless it was
+   itself reported removed (and is then covered by the theorems above on its own account). *)
+Theorem C06_untouched_unless_reported :
+  forall c g f q e, fs_get f q = Some e ->
+    let r := finalize c (init_state g f) in
+    fs_get (s_fs r) q = Some e \/ In q (s_files r) \/ In q (s_dirs r).
+Proof. exact untouched_unless_reported. Qed.
+
 (* The regenerated branching itself: the recorded hash is compared whatever lstat reports for the queued path,
    and for the path handed to `stepup clean`; `clean` treats a path as missing when stat (following links) fails. *)
 Theorem C06_hash_compared_for_every_kind :
